@@ -890,3 +890,66 @@ func ruleAcceptedApplies(r *Run) {
 	}
 	r.Floor("B8", "handlers with an accepted replicated change", nHandlers, 7)
 }
+
+// ruleAcceptedPerforms (B9): a request answered with success has had its operation carried out — on
+// every accepting path of the handler of kind K, each primitive the table names for K is called
+// (directly or inside looked-into glue) before the success answer. B8 compares sibling paths; B9
+// covers handlers with a single accepting path and operations that are not replicated
+// (subscriptions, the type registry, listings).
+func ruleAcceptedPerforms(r *Run) {
+	m := r.M()
+	if r.broken() {
+		return
+	}
+	for name := range kindPrimitive {
+		for _, pn := range kindPrimitive[name] {
+			if r.P.FuncByName(pn) == nil {
+				r.Undecide("tables", "kind/primitive table: %s does not resolve to a function in the working tree", pn)
+			}
+		}
+	}
+	n := 0
+	for _, hi := range m.Handlers {
+		if hi.Module != nil {
+			continue
+		}
+		prims := kindPrimitive[cname(hi.Const)]
+		if len(prims) == 0 {
+			continue
+		}
+		n++
+		fn := hi.Fn
+		paths := r.Paths(fn)
+		r.Analysed(fn, len(paths))
+		for pi := range paths {
+			path := &paths[pi]
+			r.at(path)
+			iAns, refused := -1, false
+			for _, a := range r.answersOn(path) {
+				switch a.Kind {
+				case "response":
+					if iAns < 0 {
+						iAns = a.Idx
+					}
+				case "error":
+					refused = true
+				}
+			}
+			if iAns < 0 || refused {
+				continue
+			}
+			for _, pn := range prims {
+				pf := r.P.FuncByName(pn)
+				called := false
+				for _, ev := range path.Events {
+					if ev.Kind == EvCall && pf != nil && ev.Callee == pf.Obj {
+						called = true
+					}
+				}
+				r.CheckT("B9", fmt.Sprintf("%s:performs[%s]", fn.Name, shortFuncName(pf.Obj)), called, fn.Body.Pos(), path,
+					"this path answers the request with success without calling %s: the request is acknowledged and not carried out [path %s]", shortFuncName(pf.Obj), r.pathSig(path))
+			}
+		}
+	}
+	r.Floor("B9", "request kinds with a designated operation", n, 9)
+}
